@@ -30,6 +30,9 @@ MODELLED = {("GlobalPlacer::exportPlacement", "cellX_"), ("GlobalPlacer::exportP
             ("DetailedPlacement::exportPlacement", "cellOrientation_")}
 
 
+DEAD_WRITERS = ("NetModel::exportPlacementX", "NetModel::exportPlacementY", "IncrNetModel::exportPlacementX", "IncrNetModel::exportPlacementY")
+
+
 def regenerate_access():
     """route-1 translator: table of every use of a mutable Circuit in the algorithms, before the proof build"""
     try:
@@ -64,13 +67,15 @@ def offending_uses(uses):
     r_glob = reach(["GlobalPlacer::place"])
     bad = []
     for fn, kind, name, line in uses:
+        if kind == "UPass" and not any(u[0] == name for u in uses):
+            bad.append("%s line %d: hands the mutable circuit to %s, a function the table does not describe" % (fn, line, name))
         if kind in ("UOther", "UCallNC", "UUnknown"):
             bad.append("%s line %d: %s %s (not a read, a hand-over or a modelled write)" % (fn, line, kind, name))
         elif kind == "UWrite" and name not in FLAGS:
             if name not in PLACEMENT:
                 bad.append("%s line %d: writes Circuit::%s, which no placement stage may change" % (fn, line, name))
-            elif (fn, name) not in MODELLED and fn in r_all:
-                bad.append("%s line %d: writes Circuit::%s outside the three modelled export functions and is reachable from a stage entry point" % (fn, line, name))
+            elif (fn, name) not in MODELLED and (fn in r_all or fn not in DEAD_WRITERS):
+                bad.append("%s line %d: writes Circuit::%s outside the three modelled export functions (%s)" % (fn, line, name, "reachable from a stage entry point" if fn in r_all else "not one of the known unreachable writers"))
             elif name == "cellOrientation_" and fn in r_glob:
                 bad.append("%s line %d: writes an orientation and is reachable from GlobalPlacer::place" % (fn, line))
     for fn, f in sorted(MODELLED):
